@@ -977,13 +977,34 @@ package collection
 //@   ensures  implies(limit <= 0, cache.lruCache == old(cache.lruCache))
 //@   allocates
 
-// NewCache: contract-only (trusted): the options are opaque callbacks; assumed to leave the cache in a state satisfying
-// cacheSync (the two options of the package do: WithName does not touch it, WithLimit is proved above)
-//@ func NewCache
-//@   property C16
+// NewCache: the options are opaque callbacks, assumed to change nothing but the new cache's name, limit and LRU list (the two
+// options of the package do: WithName, WithLimit); that the new cache satisfies cacheSync when handed out is assumed
+// (assume_publish - WithLimit is proved above to keep it). Proved: every cache gets its OWN fresh single-flight barrier - loads
+// of the same key in two caches (same name or not) never share a flight - and keeps the expiry it was given.
+//@ func newCacheStat
+//@   property C16 C07
 //@   trusted
+//@   ensures result != nil
+//@   modifies nothing
+//@   allocates
+// (NewTimingWheel = argument validation + NewTimingWheelWithTicker, which is verified; as seen from NewCache only its frame
+// matters: it touches nothing that exists - trusted)
+//@ func NewTimingWheel
+//@   trusted
+//@   results tw, err
+//@   ensures implies(err == nil, tw != nil)
+//@   modifies nothing
+//@   allocates
+//@ func NewCache
+//@   property C16 C07
 //@   results c, err
-//@   ensures implies(err == nil, c != nil && c.timingWheel != nil && c.expire == expire)
+//@   flag nopanic:opt assume_publish:Cache.lock
+//@   requires expire > 0
+//@   ghost at after NewSingleFlight#0: b = ret
+//@   call opt#0: modifies cache.name, cache.lruCache
+//@   call opt#0: assert arg0 == cache
+//@   loop 0: invariant cache != nil && cache.barrier == b && cache.expire == expire
+//@   ensures implies(err == nil, c != nil && c.timingWheel != nil && c.expire == expire && c.barrier == b && fresh(b))
 //@   allocates
 
 // Take: the loader runs only on a miss — not at all when the first lookup hits, and inside the single-flight barrier only
